@@ -29,20 +29,22 @@ states, and a shortest schedule to the first offender (replayed on the real code
 deriving instance Hashable for Var, Expr, Meth, Target, Instr, Obj, PLock, HLock, Lock, PSt, Frame, HCond, PInstr,
   Thread, St
 
-def exhaustAlphabet : List Act :=
-  [Op.eof, .close, .fileno].map (.start 0) ++
-  [Op.feed false, .feedEmpty false, .drain false, .empty false].map (.start 1) ++
-  [Op.feed true, .feedEmpty true, .drain true, .empty true].map (.start 2) ++ [.step 0, .step 1, .step 2]
+/-- `full = false`: without the (guarded, hence effect-free) empty feeds -/
+def exhaustAlphabet (full : Bool) : List Act :=
+  [Op.eof, .close, .fileno, .combineOn, .combineOff, .feedErr].map (.start 0) ++
+  ([Op.feed false, .drain false, .empty false] ++ (if full then [Op.feedEmpty false] else [])).map (.start 1) ++
+  ([Op.feed true, .drain true, .empty true] ++ (if full then [Op.feedEmpty true] else [])).map (.start 2) ++
+  [.step 0, .step 1, .step 2]
 
-partial def exhaustBfs (c : Code) (g : Bool) (front : List St) (next : List St)
+partial def exhaustBfs (c : Code) (g : Bool) (alpha : List Act) (front : List St) (next : List St)
     (seen : Std.HashMap St (Option (St × Act))) : Std.HashMap St (Option (St × Act)) :=
   match front with
-  | [] => if next.isEmpty then seen else exhaustBfs c g next.reverse [] seen
+  | [] => if next.isEmpty then seen else exhaustBfs c g alpha next.reverse [] seen
   | s :: rest =>
-    let (next', seen') := exhaustAlphabet.foldl (fun (acc : List St × Std.HashMap St (Option (St × Act))) a =>
+    let (next', seen') := alpha.foldl (fun (acc : List St × Std.HashMap St (Option (St × Act))) a =>
       let s' := act c g s a
       if acc.2.contains s' then acc else (s' :: acc.1, acc.2.insert s' (some (s, a)))) (next, seen)
-    exhaustBfs c g rest next' seen'
+    exhaustBfs c g alpha rest next' seen'
 
 partial def pathTo (seen : Std.HashMap St (Option (St × Act))) (s : St) (acc : List Act) : List Act :=
   match seen.get? s with
@@ -57,9 +59,10 @@ def isDeadlock (c : Code) (s : St) : Bool :=
 
 def b01 (b : Bool) : String := if b then "1" else "0"
 
-def showShared (p : PSt) (ne1 ne2 cl1 cl2 ev1 ev2 eof closed pipe : Bool) : String :=
+def showShared (p : PSt) (ne1 ne2 cl1 cl2 ev1 ev2 eof closed pipe comb : Bool) : String :=
   s!"ps={b01 p.pSet} pf={b01 p.pForever} os={p.os} s1={b01 p.s1} s2={b01 p.s2} ne1={b01 ne1} ne2={b01 ne2} " ++
-  s!"cl1={b01 cl1} cl2={b01 cl2} ev1={b01 ev1} ev2={b01 ev2} eof={b01 eof} closed={b01 closed} pipe={b01 pipe}"
+  s!"cl1={b01 cl1} cl2={b01 cl2} ev1={b01 ev1} ev2={b01 ev2} eof={b01 eof} closed={b01 closed} pipe={b01 pipe} " ++
+  s!"comb={b01 comb}"
 
 def showObj : Obj → String
   | .pipe => "pipe" | .or1 => "or1" | .or2 => "or2"
@@ -72,14 +75,14 @@ def showThread (t : Thread) : String :=
   | [] => if t.prog.isEmpty then "idle" else "acq"
 
 def showS (s : St) : String :=
-  showShared s.p s.ne1 s.ne2 s.cl1 s.cl2 s.ev1 s.ev2 s.eof s.chClosed s.hasPipe ++ " | " ++
+  showShared s.p s.ne1 s.ne2 s.cl1 s.cl2 s.ev1 s.ev2 s.eof s.chClosed s.hasPipe s.combine ++ " | " ++
     " ".intercalate (s.threads.map showThread)
 
 def showPend : PipeAtomic.Pend → String
   | .none => "none" | .feedSet => "feedset" | .set => "set" | .clear => "clear"
 
 def showA (a : PipeAtomic.ASt) : String :=
-  showShared a.p a.b1.ne a.b2.ne a.b1.cl a.b2.cl a.b1.ev a.b2.ev a.eof a.chClosed a.hasPipe ++
+  showShared a.p a.b1.ne a.b2.ne a.b1.cl a.b2.cl a.b1.ev a.b2.ev a.eof a.chClosed a.hasPipe a.combine ++
     s!" | h1={showPend a.b1.pend} h2={showPend a.b2.pend} todo={a.todo.length}"
 
 def parseOp : String → Option Op
@@ -88,6 +91,7 @@ def parseOp : String → Option Op
   | "drain1" => some (.drain false) | "drain2" => some (.drain true)
   | "empty1" => some (.empty false) | "empty2" => some (.empty true)
   | "eof" => some .eof | "close" => some .close | "fileno" => some .fileno
+  | "combineon" => some .combineOn | "combineoff" => some .combineOff | "feederr" => some .feedErr
   | _ => none
 
 def parseCode : String → Option Code
@@ -104,7 +108,8 @@ def parseBOp : String → Option PipeAtomic.BOp
   | _ => none
 
 def parseCOp : String → Option PipeAtomic.COp
-  | "eof" => some .eof | "close" => some .close | "fileno" => some .fileno | _ => none
+  | "eof" => some .eof | "close" => some .close | "fileno" => some .fileno
+  | "combineon" => some .combineOn | "combineoff" => some .combineOff | "feederr" => some .feedErr | _ => none
 
 def parseG : String → Option Bool
   | "0" => some false | "1" => some true | _ => none
@@ -120,12 +125,13 @@ def showAct : Act → String
   | .start tid op => "start " ++ toString tid ++ " " ++ (match op with
     | .feed i => if i then "feed2" else "feed1" | .feedEmpty i => if i then "feedempty2" else "feedempty1"
     | .drain i => if i then "drain2" else "drain1" | .empty i => if i then "empty2" else "empty1"
-    | .eof => "eof" | .close => "close" | .fileno => "fileno")
+    | .eof => "eof" | .close => "close" | .fileno => "fileno"
+    | .combineOn => "combineon" | .combineOff => "combineoff" | .feedErr => "feederr")
   | .step tid => "step " ++ toString tid
 
-def exhaust (c : Code) (g : Bool) : String :=
+def exhaust (c : Code) (g : Bool) (full : Bool) : String :=
   let s0 := init 3
-  let seen := exhaustBfs c g [s0] [] ((Std.HashMap.emptyWithCapacity 32768).insert s0 none)
+  let seen := exhaustBfs c g (exhaustAlphabet full) [s0] [] ((Std.HashMap.emptyWithCapacity 32768).insert s0 none)
   let all := seen.toList.map (·.1)
   let quiet := all.filter quiescent
   let bad := quiet.filter (fun s => s.hasPipe && s.ev1 && s.ev2 && (readable s != shouldBeReadable s))
@@ -137,10 +143,11 @@ def exhaust (c : Code) (g : Bool) : String :=
 
 def dstep (d : DSt) (line : String) : DSt × String :=
   match words line with
-  | ["S", "exhaust", c, g] =>
-    match parseCode c, parseG g with
-    | some c, some g => (d, exhaust c g)
-    | _, _ => (d, "bad-op")
+  | ["S", "exhaust", c, g, m] =>
+    match parseCode c, parseG g, m with
+    | some c, some g, "full" => (d, exhaust c g true)
+    | some c, some g, "core" => (d, exhaust c g false)
+    | _, _, _ => (d, "bad-op")
   | ["S", "new", c, n, g] =>
     match parseCode c, n.toNat?, parseG g with
     | some c, some n, some g => let s := init n; ({ d with code := c, g := g, s := s }, showS s)
